@@ -61,6 +61,12 @@ Proof.
 Qed.
 Lemma adjust_down_from_sc c p pv : same_core c (adjust_down_from c p pv).
 Proof. unfold adjust_down_from. destruct p; [apply adjust_down_sc|apply same_core_refl]. Qed.
+Lemma unhook_server_sc c p s : same_core c (unhook_server c p s).
+Proof.
+  unfold unhook_server.
+  eapply same_core_trans; [apply same_core_upd_bkt|]. eapply same_core_trans; [apply propagate_traits_sc|].
+  eapply same_core_trans; [apply bump_affinity_sc|apply adjust_down_sc].
+Qed.
 Lemma set_cursor_sc c b a i : same_core c (set_cursor c b a i).
 Proof. apply same_core_upd_bkt. Qed.
 
